@@ -30,7 +30,8 @@ func init() { handlers["race"] = raceCase }
 //
 //	Cands    candidate labels: "A".."D" = 127.0.0.1..127.0.0.4 of the listener, "A'" a duplicate spelling, "X" an unreachable
 //	         port, "T" a "turn:"-prefixed reachable address, "R" = the listener behind a UDP relay that delays the client's
-//	         packets after its first one (so the server completes that handshake late)
+//	         packets after its first one (so the server completes that handshake late), "S" = the listener behind a UDP relay
+//	         that lets nothing of the client through for relay_delay_ms and everything afterwards (a slow path)
 //	Schedule order in which parked goroutines are released: a label = the dial goroutine of that candidate after its
 //	         successful handshake ("ice.dial.established"), "main" = the caller after it took a result. Empty: no control.
 type raceSpec struct {
@@ -42,6 +43,8 @@ type raceSpec struct {
 	Rogues       int      `json:"rogues"`     // select mode: strangers that connect first and authenticate as sender with RogueCode
 	RogueCode    string   `json:"rogue_code"` // "" = they connect and stay silent
 	SpawnDelayMs int      `json:"spawn_delay_ms"` // the caller is held this long before it counts and starts each dial goroutine
+	TurnDelayMs  int      `json:"turn_delay_ms"`  // candidate "U": a "turn:" candidate behind a slow path of this delay
+	GraceMs      int      `json:"grace_ms"`       // how long after ProbeAndDial returned the listener's connections are counted (default 400)
 }
 
 type sel struct {
@@ -105,7 +108,7 @@ func (c *raceCtl) releaseAll() {
 
 // delaying relay: forwards datagrams between the dialer and the listener; client->server datagrams after the first are
 // held back by `delay`
-func startRelay(listenIP string, target *net.UDPAddr, delay time.Duration) (*net.UDPConn, error) {
+func startRelay(listenIP string, target *net.UDPAddr, delay time.Duration, holdStart ...bool) (*net.UDPConn, error) {
 	front, err := net.ListenUDP("udp4", &net.UDPAddr{IP: net.ParseIP(listenIP)})
 	if err != nil {
 		return nil, err
@@ -114,6 +117,7 @@ func startRelay(listenIP string, target *net.UDPAddr, delay time.Duration) (*net
 		var mu sync.Mutex
 		backs := map[string]*net.UDPConn{}
 		count := map[string]int{}
+		first := map[string]time.Time{}
 		buf := make([]byte, 65536)
 		for {
 			n, from, err := front.ReadFromUDP(buf)
@@ -144,7 +148,20 @@ func startRelay(listenIP string, target *net.UDPAddr, delay time.Duration) (*net
 			}
 			count[key]++
 			k := count[key]
+			if k == 1 {
+				first[key] = time.Now()
+			}
+			t0 := first[key]
 			mu.Unlock()
+			if len(holdStart) > 0 && holdStart[0] {
+				// a slow path: nothing of this client gets through during the first `delay`, afterwards everything does at once
+				if w := time.Until(t0.Add(delay)); w > 0 {
+					go func() { time.Sleep(w); back.Write(pkt) }()
+				} else {
+					back.Write(pkt)
+				}
+				continue
+			}
 			if k == 1 || delay == 0 {
 				back.Write(pkt)
 			} else {
@@ -252,6 +269,22 @@ func raceCase(args []string) string {
 			a = "127.0.0.1:9" // nobody listens there
 		case "T":
 			a = fmt.Sprintf("turn:127.0.0.6:%d", port)
+		case "U":
+			r, err := startRelay("127.0.0.9", &net.UDPAddr{IP: net.ParseIP("127.0.0.1"), Port: port}, time.Duration(g.TurnDelayMs)*time.Millisecond, true)
+			if err != nil {
+				out["setup_err"] = err.Error()
+				return fin()
+			}
+			relays = append(relays, r)
+			a = "turn:" + r.LocalAddr().String()
+		case "S":
+			r, err := startRelay("127.0.0.8", &net.UDPAddr{IP: net.ParseIP("127.0.0.1"), Port: port}, time.Duration(g.RelayDelayMs)*time.Millisecond, true)
+			if err != nil {
+				out["setup_err"] = err.Error()
+				return fin()
+			}
+			relays = append(relays, r)
+			a = r.LocalAddr().String()
 		case "R":
 			r, err := startRelay("127.0.0.7", &net.UDPAddr{IP: net.ParseIP("127.0.0.1"), Port: port}, time.Duration(g.RelayDelayMs)*time.Millisecond)
 			if err != nil {
@@ -419,7 +452,11 @@ func raceCase(args []string) string {
 			st.Close()
 		}
 	}
-	time.Sleep(400 * time.Millisecond) // grace: losers' CONNECTION_CLOSE and late handshakes have arrived
+	grace := 400
+	if g.GraceMs > 0 {
+		grace = g.GraceMs
+	}
+	time.Sleep(time.Duration(grace) * time.Millisecond) // grace: losers' CONNECTION_CLOSE and late handshakes have arrived
 	smu.Lock()
 	var open, tokenAt []int
 	first := -1
